@@ -389,6 +389,31 @@ func init() {
 		name: "tasks-crash", bgs: []string{"TimeoutPromises", "EnqueueTasks", "TimeoutTasks"}, requests: 18, maxSteps: 55, fault: 0.04, crash: 0.07,
 		timeStep: smallStep, fifo: true, senderOK: 0.6, config: baseConfig, gen: taskGen,
 	}
+	// ---- converge (C11): a scenario of every kind of state, then a long quiet phase ----
+	families["converge"] = &family{
+		name: "converge", bgs: []string{"TimeoutPromises", "EnqueueTasks", "TimeoutTasks", "TimeoutLocks", "SchedulePromises"}, requests: 16, maxSteps: 40,
+		fault: 0.08, crash: 0.03, timeStep: smallStep, fifo: true, senderOK: 0.5, drainTicks: 70,
+		config: func(r *rng) *system.Config {
+			c := baseConfig(r)
+			if r.chance(0.5) {
+				c.PromiseBatchSize, c.ScheduleBatchSize, c.TaskBatchSize = 1, 1, 1
+			}
+			return c
+		},
+		gen: func(w *world) *t_api.Request {
+			r := w.r
+			switch x := r.intn(10); {
+			case x < 6:
+				return taskGen(w)
+			case x < 8:
+				res := pick(r, []string{"r1", "r2"})
+				return &t_api.Request{Kind: t_api.AcquireLock, AcquireLock: &t_api.AcquireLockRequest{ResourceId: res, ExecutionId: pick(r, []string{"e1", "e2"}), ProcessId: "p1", Ttl: pick(r, []int64{1, 3, 8})}}
+			default:
+				return &t_api.Request{Kind: t_api.CreateSchedule, CreateSchedule: &t_api.CreateScheduleRequest{
+					Id: pick(r, []string{"s1", "s2"}), Cron: pick(r, []string{"* * * * * *", "@every 3s"}), PromiseId: "{{.id}}.{{.timestamp}}", PromiseTimeout: 5}}
+			}
+		},
+	}
 	families["tasks"] = &family{
 		name: "tasks", bgs: []string{"TimeoutPromises", "EnqueueTasks", "TimeoutTasks"}, requests: 18, maxSteps: 50, fault: 0.06,
 		timeStep: smallStep, fifo: true, senderOK: 0.6, config: baseConfig, gen: taskGen,
